@@ -235,6 +235,15 @@ func RunBatch(t *testing.T, bs BatchSpec) BatchResult {
 	if len(fams) == 0 {
 		panic("no families for " + bs.Prop)
 	}
+	if !bs.Thorough {
+		var sel []Family
+		for _, f := range fams {
+			if !f.ThoroughOnly {
+				sel = append(sel, f)
+			}
+		}
+		fams = sel
+	}
 	total := 0
 	for _, f := range fams {
 		total += f.Weight
